@@ -46,11 +46,18 @@ fn v6_src() -> [u8; 16] {
 fn v6_dst() -> [u8; 16] {
     core::array::from_fn(|i| 0x30 + i as u8)
 }
+/// an abstract-namespace style path: leading NUL, an interior NUL, and non-zero bytes through the last position
 fn ux_src() -> [u8; 108] {
-    core::array::from_fn(|i| 1 + i as u8)
+    core::array::from_fn(|i| match i {
+        0 | 4 => 0,
+        _ => 1 + i as u8,
+    })
 }
+/// an ordinary NUL-terminated path, zero padded
 fn ux_dst() -> [u8; 108] {
-    core::array::from_fn(|i| 0x80 + i as u8)
+    let mut a = [0u8; 108];
+    a[..12].copy_from_slice(b"/run/pp.sock");
+    a
 }
 
 pub fn ctors() -> &'static [Ctor] {
@@ -278,16 +285,26 @@ pub fn ops() -> &'static [Op] {
                 apply: |b| b.write_payload((5u8, &[5u8, 0, 2, 0xab, 0xcd][..])),
             },
             Op { name: "write_payload(&[u8; 40000][..])", effect: || app(big()[..40000].to_vec()), apply: |b| b.write_payload(&big()[..40000]) },
+            // 61 a Unix address block as a payload (paths with NULs before non-zero bytes)
+            Op {
+                name: "write_payload(Addresses::Unix(\"\\0abs\\0...\" -> \"/run/pp.sock\"))",
+                effect: || app(enc::unix_block(&ux_dst(), &ux_src())),
+                apply: |b| b.write_payload(v2::Addresses::Unix(v2::Unix::new(ux_dst(), ux_src()))),
+            },
         ]
     })
 }
 
-/// the main alphabet: ops 0..=40 and 47..=59
+/// the main alphabet: ops 0..=40, 47..=59 and 61
 pub fn main_ops() -> Vec<u8> {
-    (0..41u8).chain(47..60u8).collect()
+    (0..41u8).chain(47..60u8).chain(61..62u8).collect()
 }
 /// slices of 65535 / 65519 / 16 / 1 bytes, set_length(7), set_length(None), u8, big TLVs
 pub const BOUNDARY_OPS: [u8; 10] = [41, 42, 43, 44, 4, 6, 7, 45, 46, 60];
+/// the boundary alphabet plus one operation per write path (Type, u16, &u16, address block, TLV struct, (u8, bytes)
+/// pair, TLV section, write_tlv, write_payloads of integers and of pairs), so that every `WriteToHeader` impl is met
+/// in the states at and past the size limit
+pub const LIMIT_OPS: [u8; 20] = [41, 42, 43, 44, 4, 6, 7, 45, 46, 60, 28, 8, 29, 21, 23, 25, 27, 30, 33, 35];
 /// a small core alphabet for the deepest searches
 pub const CORE_OPS: [u8; 12] = [1, 3, 4, 6, 7, 8, 20, 23, 34, 36, 19, 47];
 
@@ -341,6 +358,23 @@ fn first_diff(a: &[u8], b: &[u8]) -> usize {
 
 /// Replay `case` on a fresh real builder next to the reference model, then `build`.
 pub fn judge_history(case: &[u8], acc: &mut Acc, which: Which) -> Outcome {
+    // the operations themselves are guarded below; this catches what is not (the Debug rendering used as state key)
+    match std::panic::catch_unwind(std::panic::AssertUnwindSafe(|| judge_history_inner(case, acc, which))) {
+        Ok(o) => o,
+        Err(_) => {
+            let msg = last_panic();
+            if panic_is_in_library(&msg) {
+                acc.violation("panic-in-library-call", "a library call made while judging this history", "normal return".into(), msg);
+                Outcome { key: None }
+            } else {
+                println!("MACHINERY-ERROR: the harness itself panicked while judging a builder history: {}", msg);
+                std::process::exit(2);
+            }
+        }
+    }
+}
+
+fn judge_history_inner(case: &[u8], acc: &mut Acc, which: Which) -> Outcome {
     let (ctor, rest) = match case.split_first() {
         Some((c, r)) if (*c as usize) < ctors().len() && r.iter().all(|o| (*o as usize) < ops().len()) => (&ctors()[*c as usize], r),
         _ => return Outcome { key: None },
@@ -582,21 +616,22 @@ pub fn search(run: &Run, spec: &SearchSpec, which: Which) -> (SearchStats, Acc) 
 
 pub fn run_searches(run: &Run, which: Which) {
     let all_ctors: Vec<u8> = (0..ctors().len() as u8).collect();
-    let (d_main, d_boundary, d_core) = match run.tier {
-        Tier::Quick => (3, 4, 6),
-        Tier::Thorough => (4, 6, 9),
+    let (d_main, d_boundary, d_core, d_limit) = match run.tier {
+        Tier::Quick => (3, 4, 6, 4),
+        Tier::Thorough => (4, 6, 9, 5),
     };
     let specs = vec![
         SearchSpec { name: "UB-main", ctors: all_ctors.clone(), ops: main_ops(), depth: d_main },
         SearchSpec { name: "UB-boundary", ctors: vec![0, 4, 6], ops: BOUNDARY_OPS.to_vec(), depth: d_boundary },
         SearchSpec { name: "UB-core", ctors: vec![0, 4], ops: CORE_OPS.to_vec(), depth: d_core },
+        SearchSpec { name: "UB-limit", ctors: vec![0, 4, 6], ops: LIMIT_OPS.to_vec(), depth: d_limit },
     ];
     let mut cross: Vec<Value> = Vec::new();
     for spec in &specs {
         let t0 = Instant::now();
         let (stats, acc) = search(run, spec, which);
         if stats.completed {
-            if let Some(v) = cross_check(which, spec, stats.layers.iter().sum::<u64>(), acc.viol_total) {
+            if let Some(v) = cross_check(which, spec, &stats.layers, acc.viol_total) {
                 cross.push(v);
             }
         }
@@ -624,20 +659,29 @@ pub fn run_searches(run: &Run, which: Which) {
 /// Hand the same transition function to stateright's BFS checker (the `xcheck` crate) and compare its
 /// unique-state count and verdict with ours.  A disagreement between the two explorers is a machinery
 /// error, never a verdict.
-fn cross_check(which: Which, spec: &SearchSpec, our_unique: u64, our_violations: u64) -> Option<Value> {
+fn cross_check(which: Which, spec: &SearchSpec, layers: &[u64], our_violations: u64) -> Option<Value> {
     let bin = std::env::var("PPP_XCHECK_BIN").ok().filter(|b| !b.is_empty())?;
     let name = match spec.name {
         "UB-core" => "core",
         "UB-boundary" => "boundary",
+        "UB-limit" => "limit",
         _ => "main",
     };
     if (name == "main" && spec.depth > 4) || (name == "core" && spec.depth > 8) {
         return None; // the single-threaded second explorer is only run where it takes seconds
     }
+    // UB-limit (20 operations on 64 KiB buffers) takes the single-threaded explorer a minute at depth 4: it is
+    // cross-checked through depth 3, against the sum of the BFS's layers 0..=3 (the layers are per-depth counts of
+    // new states, so a prefix sum is exactly the unique-state count of the shallower search)
+    let xdepth = if name == "limit" { spec.depth.min(3) } else { spec.depth };
+    if xdepth < spec.depth && our_violations > 0 {
+        return None; // the verdicts of searches of different depth are not comparable
+    }
+    let our_unique: u64 = layers.iter().take(xdepth + 1).sum();
     let out = std::process::Command::new(&bin)
         .arg(if which == Which::C09 { "C09" } else { "C10" })
         .arg(name)
-        .arg(spec.depth.to_string())
+        .arg(xdepth.to_string())
         .output();
     let out = match out {
         Ok(o) if o.status.success() => o,
@@ -661,10 +705,10 @@ fn cross_check(which: Which, spec: &SearchSpec, our_unique: u64, our_violations:
     if counts_differ || (their_discoveries > 0) != (our_violations > 0) {
         println!(
             "MACHINERY-ERROR: explorers disagree on {} depth {}: harness BFS {} unique states / {} violations, stateright {} unique states / {} discoveries",
-            spec.name, spec.depth, our_unique, our_violations, their_unique, their_discoveries
+            spec.name, xdepth, our_unique, our_violations, their_unique, their_discoveries
         );
         std::process::exit(2);
     }
-    Some(json!({"spec": spec.name, "depth": spec.depth, "harness_unique_states": our_unique, "harness_violations": our_violations, "stateright": v,
+    Some(json!({"spec": spec.name, "depth": xdepth, "harness_unique_states": our_unique, "harness_violations": our_violations, "stateright": v,
         "agree": true, "compared": if our_violations == 0 { "unique-state count and verdict" } else { "verdict only (stateright stops at its first discovery)" }}))
 }
